@@ -245,9 +245,14 @@ func typeStr(e ast.Expr) string {
 		if x.Len == nil {
 			return "[]" + typeStr(x.Elt)
 		}
+		if bl, ok := x.Len.(*ast.BasicLit); ok && bl.Kind == token.INT {
+			return "[" + bl.Value + "]" + typeStr(x.Elt)
+		}
 		return "[N]" + typeStr(x.Elt)
 	case *ast.SelectorExpr:
 		return typeStr(x.X) + "." + x.Sel.Name
+	case *ast.MapType:
+		return "map[" + typeStr(x.Key) + "]" + typeStr(x.Value)
 	}
 	return "?"
 }
@@ -875,6 +880,7 @@ func main() {
 			writeIfChanged(filepath.Join(filepath.Dir(*funcsPath), name), data)
 		}
 		writeIfChanged(filepath.Join(filepath.Dir(*funcsPath), "GenMeta.v"), metaOut)
+		writeIfChanged(filepath.Join(filepath.Dir(*funcsPath), "GenRedirect.v"), emitRedirectFuncs(root, types, env, tenv))
 	}
 	if *litPath != "" {
 		writeIfChanged(*litPath, collectLiterals(root, types, uuid))
